@@ -70,7 +70,7 @@ def r19b(chk, rid='R19.b'):
     kinds = [e.attr for e in ast.walk(tup[0].value) if isinstance(e, ast.Attribute)]
     if not kinds:
         raise AnalysisError('_combinable: no kinds')
-    den = denied(chk.repo.fn(MEDIA, 'CSSMediaRule.insertRule'))
+    den = denied(chk.repo.mod(MEDIA), chk.repo.fn(MEDIA, 'CSSMediaRule.insertRule'))
     for k in kinds:
         cls = KIND_CLASS.get(k)
         if cls is None:
